@@ -8,6 +8,7 @@ import (
 	"sync/atomic"
 	"time"
 
+	"github.com/SAP/go-dblib/asetypes"
 	"github.com/SAP/go-dblib/tds"
 
 	"verif/harness/rt"
@@ -439,6 +440,29 @@ func c12CloseRun(c *Ctx, cs c12CloseCase) {
 				}
 			}
 		})
+		if cs.Rep%2 == 1 {
+			// a second sender on the same channel, with packages that
+			// look at the channel's last transmitted package (format + data)
+			wg.Add(1)
+			go guard(func() {
+				for i := 0; i < 40; i++ {
+					fmtF, data, err := tds.LookupFieldFmtData(asetypes.INT4)
+					if err != nil {
+						return
+					}
+					data.SetValue(int32(i))
+					if err := x.QueuePackage(k.ctx, tds.NewParamFmtPackage(false, fmtF)); err != nil {
+						return
+					}
+					if err := x.QueuePackage(k.ctx, tds.NewParamsPackage(data)); err != nil {
+						return
+					}
+					if err := x.SendRemainingPackets(k.ctx); err != nil {
+						return
+					}
+				}
+			})
+		}
 		go guard(func() {
 			for {
 				if _, err := x.NextPackage(k.ctx, true); err != nil && !strings.Contains(err.Error(), "invalid channel") {
@@ -462,7 +486,29 @@ func c12CloseRun(c *Ctx, cs c12CloseCase) {
 		okClose := closeX()
 		close(stop)
 		guardTimer := time.AfterFunc(30*time.Second, k.cancel)
-		wg.Wait()
+		wgDone := make(chan struct{})
+		go func() { wg.Wait(); close(wgDone) }()
+		select {
+		case <-wgDone:
+		case <-time.After(60 * time.Second):
+			// sender / receiver never came back (closeX has recorded why
+			// if Close itself is stuck); do not wait for them for ever
+			guardTimer.Stop()
+			if okClose {
+				stuck := ""
+				for _, g := range rt.Goroutines() {
+					if g.Has("main.c12CloseRun") && g.Parked() && (g.Has("tds.(*Channel).SendPackage") || g.Has("tds.(*Channel).NextPackage")) {
+						stuck += fmt.Sprintf(" [%s] at %s;", g.State, firstDblib(g))
+					}
+				}
+				if stuck != "" {
+					fail("close/send-or-receive-does-not-return/racing-close", "60 s after Close had returned and the connection context was cancelled a send or receive on the closed channel is still parked:"+stuck)
+				} else {
+					r.Inconclusive("racing-close: helper goroutines did not finish")
+				}
+			}
+			return
+		}
 		guardTimer.Stop()
 		pmu.Lock()
 		pi := panicked
